@@ -206,6 +206,14 @@ def observe(cmd, args):
             elif kind == "req-clauses":
                 a, c = Requirement("foo " + ",".join(items)), Requirement("foo " + ",".join(p))
                 obs = lambda s: (str(s), hash(s), str(s.specifier))
+            elif kind in ("set-objects", "and-objects"):
+                # members are Specifier objects carrying their own pre-release setting: "<T|F|N><clause>"
+                TRI = {"T": True, "F": False, "N": None}
+                mk = lambda lst: [Specifier(x[1:], prereleases=TRI[x[0]]) for x in lst]
+                if kind == "set-objects": a, c = SpecifierSet(mk(items)), SpecifierSet(mk(p))
+                else: a, c = SpecifierSet(mk(items[:1])) & SpecifierSet(mk(items[1:])), SpecifierSet(mk(items[1:])) & SpecifierSet(mk(items[:1]))
+                cands = ["1.0", "2.0a1", "0.5", "3.0", "1.0.dev1", "2.0"]
+                obs = lambda s: (str(s), hash(s), len(s), s.prereleases, [s.contains(x) for x in cands], [s.contains(x, prereleases=True) for x in cands], [str(x) for x in s.filter(cands)])
             elif kind == "tags":
                 a, c = parse_tag("-".join(".".join(x.split("+")) for x in items)), None
                 its2 = [".".join(r.sample(x.split("+"), len(x.split("+")))) for x in items]
